@@ -330,6 +330,10 @@ func (p *prop) Generate(rng *core.Rand, tier string, emit func(string)) {
 	}
 	sr := rng.Fork()
 	for i := 0; i < nStress && p.failed.Load() < enoughFailures; i++ {
-		emit(fmt.Sprintf("stress %d %d", 2+sr.Intn(47), sr.Intn(9000)))
+		op := "stress"
+		if i%3 == 2 {
+			op = "stressdyn"
+		}
+		emit(fmt.Sprintf("%s %d %d", op, 2+sr.Intn(47), sr.Intn(9000)))
 	}
 }
